@@ -71,7 +71,7 @@ pub fn run_property(prop: &str, tier: &str, threads: usize, budget: &Budget, fin
     match prop {
         "C01" => {
             report.rule = "every operation history over the profile's alphabet up to the stated depth, executed on the real crate next to a String model; a state is the exact canonical pool (raw inline bytes, whole heap buffers incl. stale tails, capacities, reference counts, sharing graph); distinct = distinct canonical state".into();
-            let (dw, dt, ds, di, dsh, dst, dinl) = if quick { (4, 3, 2, 2, 3, 3, 4) } else { (6, 5, 4, 3, 7, 5, 7) };
+            let (dw, dt, ds, di, dsh, dst, dinl) = if quick { (4, 4, 3, 3, 4, 4, 5) } else { (6, 5, 4, 3, 5, 6, 8) };
             bfs(&env, report, &wide, Roots::Empty, dw, props, dw <= 5);
             bfs(&env, report, &wide_try, Roots::Empty, dt, props, true);
             bfs(&env, report, &wide, Roots::Seeds, ds, props, true);
@@ -82,7 +82,7 @@ pub fn run_property(prop: &str, tier: &str, threads: usize, budget: &Budget, fin
         }
         "C02" => {
             report.rule = "same graph as C01 incl. failing and panicking operations; oracle: every handle that is not the target of the step is bit-identical (text, length, pointer, capacity, raw words) before and after; 'static bytes pristine; sentinels around every handle intact".into();
-            let (dw, ds, dsh, dst) = if quick { (4, 2, 4, 3) } else { (5, 4, 8, 5) };
+            let (dw, ds, dsh, dst) = if quick { (4, 3, 5, 4) } else { (5, 4, 6, 6) };
             bfs(&env, report, &wide, Roots::Empty, dw, props, true);
             bfs(&env, report, &wide, Roots::Seeds, ds, props, true);
             bfs(&env, report, &share, Roots::Seeds, dsh, props, true);
@@ -93,7 +93,7 @@ pub fn run_property(prop: &str, tier: &str, threads: usize, budget: &Budget, fin
         }
         "C03" => {
             report.rule = "same graph as C01 with operations that fail without fault injection (huge reservations, huge size hints, bad indices, panicking predicates); shadow heap checked after every step (refcount == live handles, live blocks == referenced buffers, no access outside a live block, layouts repeated, guards and poison intact); every new state is closed in all K rotation orders and must leave zero live blocks".into();
-            let (dw, dt, ds, dsh, dst) = if quick { (4, 3, 2, 3, 3) } else { (5, 4, 4, 7, 5) };
+            let (dw, dt, ds, dsh, dst) = if quick { (4, 3, 3, 4, 4) } else { (5, 5, 4, 6, 6) };
             bfs(&env, report, &wide, Roots::Empty, dw, props, true);
             bfs(&env, report, &wide_try, Roots::Empty, dt, props, true);
             bfs(&env, report, &wide, Roots::Seeds, ds, props, true);
@@ -105,28 +105,32 @@ pub fn run_property(prop: &str, tier: &str, threads: usize, budget: &Budget, fin
         }
         "C05" => {
             report.rule = "for every stored state of the explored graph, every enabled operation in both forms (plain / try_), every allocator request k the operation issues is refused in turn (1 deviation); second refusals inside the same call and in every follow-up operation (2 deviations); distinct = distinct (operation, target storage, form, outcome class)".into();
-            let (dw, ds) = if quick { (2, 0) } else { (3, 1) };
+            // pairs (two refusals, the second one in a follow-up operation) up to depth dp;
+            // single refusals + in-call second refusals + follow-ups up to depth dw
+            let (dw, dp, ds) = if quick { (3, 2, 0) } else { (4, 3, 1) };
             let stored = bfs(&env, report, &wide, Roots::Empty, dw, Props::default(), true);
-            let mut states = flatten(&stored, dw);
-            if !quick {
-                let s2 = bfs(&env, report, &wide, Roots::Seeds, ds, Props::default(), true);
-                states.extend(flatten(&s2, ds));
-            } else {
-                states.extend(flatten(&bfs(&env, report, &wide, Roots::Seeds, 0, Props::default(), true), 0));
-            }
+            let mut shallow = flatten(&stored, dp);
+            let deep: Vec<History> = stored.iter().skip(dp + 1).flat_map(|l| l.iter().cloned()).collect();
+            let s2 = bfs(&env, report, &wide, Roots::Seeds, ds, Props::default(), true);
+            shallow.extend(flatten(&s2, ds));
             let stats = ProbeStats::default();
             let cx = ProbeCtx { prof: &wide, findings, stats: &stats, heap_as: None, iso_as: None };
             let cfg = FaultCfg { followups: true, pairs: true };
-            let (done, complete) = for_each_state(&states, threads, budget, |h| probes::fault_probe(&cx, h, &cfg));
-            report.add_probe(stats.to_json("allocation-refusal", done, complete));
-            report.bounds.push(format!("fault probe: states up to depth {dw} of wide + seeds; single refusals, in-call second refusals, and pairs across one follow-up operation"));
+            let (done, complete) = for_each_state(&shallow, threads, budget, |h| probes::fault_probe(&cx, h, &cfg));
+            report.add_probe(stats.to_json("allocation-refusal (1 and 2 deviations)", done, complete));
+            let stats = ProbeStats::default();
+            let cx = ProbeCtx { prof: &wide, findings, stats: &stats, heap_as: None, iso_as: None };
+            let cfg = FaultCfg { followups: true, pairs: false };
+            let (done, complete) = for_each_state(&deep, threads, budget, |h| probes::fault_probe(&cx, h, &cfg));
+            report.add_probe(stats.to_json("allocation-refusal (1 deviation + in-call second refusal)", done, complete));
+            report.bounds.push(format!("fault probe: every state of wide up to depth {dw} (+ seeds): single refusals, second refusals inside the same call, every follow-up operation; up to depth {dp} additionally a second refusal in every follow-up operation"));
         }
         "C06" => {
             report.rule = "for every stored state and every live handle: try_reserve / reserve / try_shrink_to / shrink_to / extend(iterator with size_hint lower bound n yielding 0-2 items) for every n in SIZES (powers of two +-2, the 56-bit limit +-3, isize::MAX +-2, usize::MAX-2.., each minus the current length, len+-1, cap+-1); state-independent: try_with_capacity / with_capacity / collect with hint n; requests above 1 MiB are refused by the shim; distinct = distinct (entry point, target storage, outcome)".into();
-            let dw = if quick { 2 } else { 3 };
+            let (dw, ds) = if quick { (3, 0) } else { (3, 1) };
             let stored = bfs(&env, report, &wide, Roots::Empty, dw, Props::default(), true);
             let mut states = flatten(&stored, dw);
-            states.extend(flatten(&bfs(&env, report, &wide, Roots::Seeds, 0, Props::default(), true), 0));
+            states.extend(flatten(&bfs(&env, report, &wide, Roots::Seeds, ds, Props::default(), true), ds));
             let stats = ProbeStats::default();
             let cx = ProbeCtx { prof: &wide, findings, stats: &stats, heap_as: None, iso_as: None };
             let (done, complete) = for_each_state(&states, threads, budget, |h| probes::size_probe(&cx, h));
@@ -136,7 +140,7 @@ pub fn run_property(prop: &str, tier: &str, threads: usize, budget: &Budget, fin
         }
         "C07" => {
             report.rule = "(a) for every stored state and every live handle: insert / insert_str / insert_str(\"\") / remove / truncate and their try_ forms at every byte index 0..=len+2, String as the reference for accept/panic; a rejected call must leave the exact canonical pool unchanged and issue no allocator request; (b) every text over the four character widths up to the stated length in 7 storage states (inline, static, static truncated, heap exact/spare, heap shared equal/shorter) x the same operations x every index".into();
-            let (dw, di) = if quick { (2, 2) } else { (3, 3) };
+            let (dw, di) = if quick { (3, 3) } else { (4, 3) };
             let stored = bfs(&env, report, &wide, Roots::Empty, dw, Props::default(), true);
             let mut states = flatten(&stored, dw);
             states.extend(flatten(&bfs(&env, report, &wide, Roots::Seeds, 0, Props::default(), true), 0));
@@ -158,7 +162,7 @@ pub fn run_property(prop: &str, tier: &str, threads: usize, budget: &Budget, fin
         }
         "C08" => {
             report.rule = "every clone / clone_from / assignment / From<&LeanString> / to_lean_string(LeanString) transition of the explored graph: zero allocator requests, same pointer (heap, static) or bitwise copy (inline), reference count +1, exactly the one expected release for clone_from; plus a sweep over lengths 0..=80,100,1000,4096(,65536,1 MiB) x 7 storage states x 5 cloning methods x clone counts x 3 drop orders".into();
-            let (dw, ds, dsh) = if quick { (4, 2, 3) } else { (5, 3, 6) };
+            let (dw, ds, dsh) = if quick { (4, 3, 4) } else { (5, 4, 6) };
             bfs(&env, report, &wide, Roots::Empty, dw, props, true);
             bfs(&env, report, &wide, Roots::Seeds, ds, props, true);
             bfs(&env, report, &share, Roots::Seeds, dsh, props, true);
@@ -170,7 +174,7 @@ pub fn run_property(prop: &str, tier: &str, threads: usize, budget: &Budget, fin
         }
         "C09" => {
             report.rule = "inline profile: every history of edits that keeps the text within the inline limit (K=2) - no allocator request, storage stays inline; every constructor transition of the wide graph; constructor sweep: every text over the four widths up to the stated length, every possible 16th byte (192 x 3 shapes + 128 ASCII), lengths 17..=80/100/1000/65536 through 10 constructors; every char; both bools; every digit count of every integer type".into();
-            let (dinl, dw) = if quick { (5, 3) } else { (7, 4) };
+            let (dinl, dw) = if quick { (6, 4) } else { (8, 5) };
             bfs(&env, report, &inline, Roots::Empty, dinl, props, true);
             bfs(&env, report, &wide, Roots::Empty, dw, props, true);
             bfs(&env, report, &wide_try, Roots::Empty, dw, props, true);
@@ -182,7 +186,7 @@ pub fn run_property(prop: &str, tier: &str, threads: usize, budget: &Budget, fin
         }
         "C10" => {
             report.rule = "static profile: every history over handles built by from_static_str (texts of 16, 17 and 40 bytes with mixed widths) plus one heap text; after every step the harness-owned writable 'static buffers are compared with pristine copies; from_static_str / clone / pop / truncate / clear must issue no allocator request and keep pointing at the caller's bytes".into();
-            let (dst, dw, ds) = if quick { (4, 3, 2) } else { (6, 4, 3) };
+            let (dst, dw, ds) = if quick { (5, 4, 3) } else { (7, 5, 4) };
             bfs(&env, report, &statics, Roots::Empty, dst, props, true);
             bfs(&env, report, &statics, Roots::Seeds, ds, props, true);
             bfs(&env, report, &wide, Roots::Empty, dw, props, true);
@@ -190,7 +194,7 @@ pub fn run_property(prop: &str, tier: &str, threads: usize, budget: &Budget, fin
         }
         "C11" => {
             report.rule = "every transition of the explored graph: capacity >= len for every handle; with_capacity(n) >= n; successful reserve(n): capacity >= len+n and storage exclusively owned; appends/inserts that fit the capacity reported just before on an exclusively owned target: zero allocator requests and the text does not move".into();
-            let (dw, dt, ds, dsh) = if quick { (4, 3, 2, 3) } else { (5, 4, 4, 6) };
+            let (dw, dt, ds, dsh) = if quick { (4, 4, 3, 4) } else { (5, 5, 4, 6) };
             bfs(&env, report, &wide, Roots::Empty, dw, props, true);
             bfs(&env, report, &wide_try, Roots::Empty, dt, props, true);
             bfs(&env, report, &wide, Roots::Seeds, ds, props, true);
@@ -198,7 +202,7 @@ pub fn run_property(prop: &str, tier: &str, threads: usize, budget: &Budget, fin
         }
         "C12" => {
             report.rule = "every growth event (single-reservation operation with old_len + additional > old_capacity whose result is a heap buffer) of the explored graph: old_len + old_len/2 <= new_capacity <= max(old_len + old_len/2, old_len + additional); sweep reserve/push_str/insert_str of 1..=N bytes on lengths 0..=N in 7 storage states; four push-one-char loops observing every prefix: allocator requests never exceed the slowest growth the statement permits, bytes copied <= 3*n*w+64".into();
-            let (dw, ds, dst) = if quick { (4, 2, 3) } else { (5, 4, 5) };
+            let (dw, ds, dst) = if quick { (4, 3, 4) } else { (5, 4, 6) };
             bfs(&env, report, &wide, Roots::Empty, dw, props, true);
             bfs(&env, report, &wide, Roots::Seeds, ds, props, true);
             bfs(&env, report, &statics, Roots::Empty, dst, props, true);
@@ -210,7 +214,7 @@ pub fn run_property(prop: &str, tier: &str, threads: usize, budget: &Budget, fin
         }
         "C13" => {
             report.rule = "every shrink_to / shrink_to_fit transition of the explored graph, and for every stored state and every live handle: shrink_to_fit and shrink_to(m) for every m in 0..=capacity+2 and every m of C06's SIZES, both forms; oracle = the statement's capacity algebra, texts of all handles unchanged, other handles untouched".into();
-            let (dw, dp, dsh) = if quick { (3, 2, 3) } else { (4, 3, 5) };
+            let (dw, dp, dsh) = if quick { (4, 3, 4) } else { (5, 4, 6) };
             let stored = bfs(&env, report, &wide, Roots::Empty, dw, props, true);
             bfs(&env, report, &share, Roots::Seeds, dsh, props, true);
             let mut states = flatten(&stored, dp);
@@ -222,7 +226,7 @@ pub fn run_property(prop: &str, tier: &str, threads: usize, budget: &Budget, fin
         }
         "C17" => {
             report.rule = "in every state of the explored graph: all ordered pairs of live handles (==, !=, cmp, partial_cmp, <, >=, Hash with a fixed-key hasher) and every handle against str/&str/String/Cow in both orders, Display/Debug/padding, Borrow/AsRef/Deref, HashMap/BTreeMap lookups by &str and iteration order, all compared with the same operations on the model strs; representation zoo: texts x 9 construction routes, all pairs".into();
-            let (dw, ds, dsh) = if quick { (3, 2, 3) } else { (4, 3, 5) };
+            let (dw, ds, dsh) = if quick { (4, 2, 4) } else { (5, 3, 6) };
             bfs(&env, report, &wide, Roots::Empty, dw, props, true);
             bfs(&env, report, &wide, Roots::Seeds, ds, props, true);
             bfs(&env, report, &share, Roots::Seeds, dsh, props, true);
@@ -259,10 +263,10 @@ pub fn run_property(prop: &str, tier: &str, threads: usize, budget: &Budget, fin
         }
         "C18" => {
             report.rule = "for every stored state: retain / try_retain with each of 4 predicates panicking at its k-th call (every k); extend with 7 item kinds x {honest, zero} size hints with next() panicking at its k-th call (every k up to items+1); collect with the same iterators; to_lean_string / try_to_lean_string on a Display that panics after j pieces; reference = String under the same callback; afterwards all other handles unchanged, reference counts consistent, closing leaves zero live blocks; distinct = distinct (call, target storage, outcome)".into();
-            let dw = if quick { 2 } else { 3 };
+            let (dw, ds) = if quick { (3, 0) } else { (4, 1) };
             let stored = bfs(&env, report, &wide, Roots::Empty, dw, Props::default(), true);
             let mut states = flatten(&stored, dw);
-            states.extend(flatten(&bfs(&env, report, &wide, Roots::Seeds, 0, Props::default(), true), 0));
+            states.extend(flatten(&bfs(&env, report, &wide, Roots::Seeds, ds, Props::default(), true), ds));
             let stats = ProbeStats::default();
             let cx = ProbeCtx { prof: &wide, findings, stats: &stats, heap_as: None, iso_as: None };
             let (done, complete) = for_each_state(&states, threads, budget, |h| probes::panic_probe(&cx, h));
